@@ -267,12 +267,18 @@ Definition common_guard (T : tables) (f : fld) (h1 h2 : list (N * bool)) : bool 
 Definition same_variant (r1 r2 : row) : bool :=
   N.eqb (r_variant r1) 0 || N.eqb (r_variant r2) 0 || N.eqb (r_variant r1) (r_variant r2).
 
+(* (written with if-then-else: vm_compute is call-by-value, [||] would evaluate both sides) *)
 Definition rows_conflict (r1 r2 : row) : bool :=
-  N.eqb (r_field r1) (r_field r2) && (r_write r1 || r_write r2) && negb (r_atomic r1 && r_atomic r2)
-  && same_variant r1 r2.
+  if N.eqb (r_field r1) (r_field r2)
+  then (r_write r1 || r_write r2) && negb (r_atomic r1 && r_atomic r2) && same_variant r1 r2
+  else false.
 
 Definition pair_consistent (T : tables) (r1 r2 : row) : bool :=
-  negb (rows_conflict r1 r2) || r_prepub r1 || r_prepub r2 || common_guard T (r_field r1) (r_held r1) (r_held r2).
+  if rows_conflict r1 r2
+  then if r_prepub r1 then true
+       else if r_prepub r2 then true
+       else common_guard T (r_field r1) (r_held r1) (r_held r2)
+  else true.
 
 Definition pair_excused (T : tables) (r1 r2 : row) : bool :=
   existsb (fun e : N * N * N =>
@@ -284,11 +290,13 @@ Definition pair_excused (T : tables) (r1 r2 : row) : bool :=
 Definition inconsistent_pairs (T : tables) (strict : bool) : list (N * N) :=
   flat_map (fun r1 : row =>
     flat_map (fun r2 : row =>
-      if N.leb (r_id r1) (r_id r2) && negb (pair_consistent T r1 r2) && (strict || negb (pair_excused T r1 r2))
+      if pair_consistent T r1 r2 then []
+      else if N.leb (r_id r1) (r_id r2) && (strict || negb (pair_excused T r1 r2))
       then [(r_id r1, r_id r2)] else []) (t_rows T)) (t_rows T).
 
 Definition table_ok (T : tables) : bool :=
-  forallb (fun r1 : row => forallb (fun r2 : row => pair_consistent T r1 r2 || pair_excused T r1 r2) (t_rows T)) (t_rows T).
+  forallb (fun r1 : row => forallb (fun r2 : row =>
+     if pair_consistent T r1 r2 then true else pair_excused T r1 r2) (t_rows T)) (t_rows T).
 
 Definition table_strictly_ok (T : tables) : bool :=
   forallb (fun r1 : row => forallb (fun r2 : row => pair_consistent T r1 r2) (t_rows T)) (t_rows T).
